@@ -89,6 +89,9 @@ def cases(seed, tier, shard, nshards):
         if use_index and r.random() < 0.5:
             # index entries as the first thing of a list item and between \begin{..} and the first \item (no text before them)
             prefix += '\\begin{itemize}\\index{%s}\n\\item\\index{%s} IxLaz\n\\item \\index{%s}IxLbz\\end{itemize}\n\n' % (r.choice(WORDS), r.choice(WORDS), r.choice(WORDS))
+        if use_index and r.random() < 0.4:
+            # link targets written inside an optional argument (the term of a description item): index entries and a footnote
+            prefix += '\\begin{description}\\item[IxTaz\\index{%s}] IxTbz\n\\item[IxTcz\\footnote{Zf7y term note}] IxTdz \\index{%s}\\end{description}\n\n' % (r.choice(WORDS), r.choice(WORDS))
         index_in_bib = use_index and use_bib and r.random() < 0.5
         natbib = use_bib and r.random() < 0.4
         if natbib:
